@@ -1,5 +1,6 @@
 """C01 — event JSON parsing is faithful to an independent JSON parser."""
 import itertools
+from .. import sweeps
 from ..common import Check, hx, tags_tok
 from .. import jsongen
 
@@ -96,4 +97,5 @@ def run():
         if r:
             c.nontriv(l[:600])
             c.sample({'text': repr(full[:consumed][:200]), 'accessors': a[:160]}, limit=3)
+    sweeps.cpt_sweep(c, 0, 0x110000 if not Q else 0x110000)
     c.finish()
